@@ -557,7 +557,7 @@ pub fn pred_c12(c: &BodyCase, r: &Ran) -> String {
         let owed = announced(r).map_or(false, |a| {
             let before: u64 = r.recs[..i].iter().map(|x| if let Out::Data(d) = &x.out { d.len() as u64 } else { 0 }).sum();
             before < a
-        }) && !r.recs[..i].iter().any(|x| matches!(x.out, Out::ErrShort(_) | Out::ErrLong(_)));
+        }) && !r.recs[..i].iter().any(|x| matches!(x.out, Out::ErrShort(_) | Out::ErrLong(_) | Out::ErrOther(_)));
         if p.eos && (c.honest || owed) {
             for l in &r.recs[i..] {
                 // an empty frame or Pending delivers neither data nor an error
